@@ -2,6 +2,7 @@ package checks
 
 import (
 	"fmt"
+	"math/big"
 	mrand "math/rand/v2"
 
 	"github.com/gmrtd/gmrtd/cryptoutils"
@@ -196,3 +197,7 @@ func bytesEq(a, b []byte) bool {
 	}
 	return true
 }
+
+type bigInt = big.Int
+
+func bigOne(v int64) *big.Int { return big.NewInt(v) }
